@@ -97,8 +97,12 @@ func c13CheckWire(wire []c13Wire, failed map[string]bool, quietAt map[string]int
 }
 
 
+// c13ChunkReader is the source of a ReadFrom call. ReadFrom takes the stream's write mutex once per Read of its
+// source, i.e. once per frame: every Read is one accepted write of its own, so every Read hands out its own tag
+// (a chunk longer than a frame continues with tag+1, +2, ...). Only the frames of ONE Write call are contiguous.
 type c13ChunkReader struct {
 	chunks [][]byte
+	part   byte
 }
 
 func (r *c13ChunkReader) Read(b []byte) (int, error) {
@@ -106,10 +110,15 @@ func (r *c13ChunkReader) Read(b []byte) (int, error) {
 		return 0, io.EOF
 	}
 	n := copy(b, r.chunks[0])
+	for i := 0; i < n; i++ {
+		b[i] += r.part
+	}
 	if n == len(r.chunks[0]) {
 		r.chunks = r.chunks[1:]
+		r.part = 0
 	} else {
 		r.chunks[0] = r.chunks[0][n:]
+		r.part++
 	}
 	return n, nil
 }
